@@ -532,6 +532,7 @@ func main() {
 	r.Assume("acceptance is not judged for strings ending in a bare ':' or '@' whose lenient reading is acceptable, for paths with several '@' whose last one starts a digest, and for registries outside {DNS labels, IPv4, bracketed IPv6} with optional port 0–65535 that are not surely invalid (net/url decides those); parts and round trip are still checked whenever the library accepts")
 	r.Assume("digest algorithms registered in this binary: sha256, sha384, sha512 (crypto/sha256 and crypto/sha512 linked)")
 	r.Assume("the recording RoundTripper answers with canned responses; no socket is opened")
+	r.Assume("request host = the reference's registry, except the documented Reference.Host() alias docker.io → registry-1.docker.io; the path always carries the reference's repository unchanged")
 
 	thorough := r.Thorough()
 	tokDepth, chDepth := 6, 5
